@@ -32,12 +32,33 @@ func (timeoutErr) Temporary() bool { return true }
 
 type rtHandler func(req *http.Request) (*http.Response, error)
 
+// eventSeq orders the exchanges of transport and fetcher on one time line.
+type eventSeq struct {
+	mu  sync.Mutex
+	evs []string
+}
+
+func (e *eventSeq) add(u string) {
+	if e == nil {
+		return
+	}
+	e.mu.Lock()
+	e.evs = append(e.evs, u)
+	e.mu.Unlock()
+}
+func (e *eventSeq) all() []string {
+	e.mu.Lock()
+	defer e.mu.Unlock()
+	return append([]string{}, e.evs...)
+}
+
 // worldRT serves the configured URLs in-process and logs every request.
 type worldRT struct {
 	mu       sync.Mutex
 	handlers map[string]rtHandler // keyed by configured server URL
 	log      []string             // configured URL of each request, in arrival order
 	onReq    func(url string)     // hook (barriers, cancellation)
+	seq      *eventSeq
 }
 
 func newWorldRT() *worldRT { return &worldRT{handlers: map[string]rtHandler{}} }
@@ -69,6 +90,7 @@ func (w *worldRT) RoundTrip(req *http.Request) (*http.Response, error) {
 	w.log = append(w.log, u)
 	hook := w.onReq
 	w.mu.Unlock()
+	w.seq.add(u)
 	if hook != nil {
 		hook(u)
 	}
@@ -370,6 +392,8 @@ func buildCRL(s crlSpec, issuer *Cert, serial *big.Int) []byte {
 		tmpl.NextUpdate = baseTime.Add(time.Hour)
 	case "-1h":
 		tmpl.NextUpdate = baseTime.Add(-time.Hour)
+	default:
+		tmpl.NextUpdate = baseTime.Add(time.Hour) // removed again below
 	}
 	for i, e := range s.Entries {
 		re := x509.RevocationListEntry{SerialNumber: serial, RevocationTime: entryTime(e.RTime), ReasonCode: e.Reason}
@@ -428,8 +452,8 @@ func buildCRL(s crlSpec, issuer *Cert, serial *big.Int) []byte {
 	if err != nil {
 		panic(fmt.Sprintf("CreateRevocationList: %v", err))
 	}
-	if s.Number < 0 {
-		der = stripCRLNumber(der, key)
+	if s.Number < 0 || s.Next == "absent" {
+		der = rewriteCRL(der, key, s.Number < 0, s.Next == "absent")
 	}
 	if s.Signer == "badsig" {
 		der = append([]byte{}, der...)
@@ -438,8 +462,8 @@ func buildCRL(s crlSpec, issuer *Cert, serial *big.Int) []byte {
 	return der
 }
 
-// stripCRLNumber removes the CRL number extension from a CRL and re-signs it (ECDSA/SHA-256 or what the key needs).
-func stripCRLNumber(der []byte, key crypto.Signer) []byte {
+// rewriteCRL removes the CRL number extension and/or the nextUpdate field from a CRL and re-signs it.
+func rewriteCRL(der []byte, key crypto.Signer, dropNumber, dropNext bool) []byte {
 	var outer struct {
 		TBS asn1.RawValue
 		Alg pkix.AlgorithmIdentifier
@@ -462,11 +486,14 @@ func stripCRLNumber(der []byte, key crypto.Signer) []byte {
 	}
 	var keep []pkix.Extension
 	for _, e := range tbs.Extensions {
-		if !e.Id.Equal(oidCRLNumber) {
+		if !(dropNumber && e.Id.Equal(oidCRLNumber)) {
 			keep = append(keep, e)
 		}
 	}
 	tbs.Extensions = keep
+	if dropNext {
+		tbs.NextUpdate = time.Time{}
+	}
 	ntbs, err := asn1.Marshal(tbs)
 	if err != nil {
 		panic(err)
@@ -571,6 +598,7 @@ type worldFetcher struct {
 	res   map[string]fetchResult
 	log   []string
 	onReq func(url string)
+	seq   *eventSeq
 }
 
 func newWorldFetcher() *worldFetcher { return &worldFetcher{res: map[string]fetchResult{}} }
@@ -581,6 +609,7 @@ func (f *worldFetcher) Fetch(ctx context.Context, url string) (*crlpkg.Bundle, e
 	r, ok := f.res[url]
 	hook := f.onReq
 	f.mu.Unlock()
+	f.seq.add(url)
 	if hook != nil {
 		hook(url)
 	}
